@@ -2,7 +2,10 @@ module verif
 
 go 1.23.0
 
-require golang.org/x/tools v0.29.0
+require (
+	golang.org/x/tools v0.29.0
+	pgregory.net/rapid v1.3.0
+)
 
 require (
 	golang.org/x/mod v0.22.0 // indirect
